@@ -82,8 +82,43 @@ def detect(d, props):
         print(d, p, "exit", c["exit"], "violations", c["n_violations"], (c["violations"][:1] or c["undecided"][:1]))
 
 
+def sweep(d, jobs=5):
+    """run every claimed quick check against a scratch copy of /repo with the patch applied (PVC_REPO);
+    writes <dir>/sweep.json"""
+    import tempfile
+    from concurrent.futures import ThreadPoolExecutor
+    man = json.load(open(os.path.join(VERIF, "MANIFEST.json")))
+    props = [c["property_id"] for c in man["checks"]]
+    base = tempfile.mkdtemp(prefix="pvc_seed_", dir="/tmp")
+    res = {}
+    try:
+        sh("rsync -a --exclude .git --exclude doc --exclude 'tutorials*' /repo/ %s/" % base)
+        ap = sh("cd %s && patch -p1 < %s" % (base, os.path.join(d, "patch.diff")))
+        if ap.returncode != 0:
+            print("patch failed", ap.stdout[-300:], ap.stderr[-300:])
+            return
+
+        def run(p):
+            env = dict(os.environ, PVC_REPO=base, PVC_OUT=os.path.join(base, "_out_" + p), PVC_JOBS="4")
+            r = subprocess.run([os.path.join(VERIF, "check"), p], capture_output=True, text=True, cwd=VERIF, env=env)
+            viol = [l.split("obligation=")[-1][:200] for l in r.stdout.splitlines() if l.startswith("VIOLATION")]
+            return p, {"exit": r.returncode, "n_violations": len(viol), "violations": viol[:4]}
+        with ThreadPoolExecutor(jobs) as ex:
+            for p, c in ex.map(run, props):
+                res[p] = c
+    finally:
+        shutil.rmtree(base, ignore_errors=True)
+    json.dump(res, open(os.path.join(d, "sweep.json"), "w"), indent=1)
+    hit = {p: c["violations"][:1] for p, c in res.items() if c["exit"] == 1}
+    other = {p: c["exit"] for p, c in res.items() if c["exit"] not in (0, 1)}
+    print(d, "CAUGHT by" if hit else "MISSED", hit, ("non-0/1 exits: %s" % other) if other else "")
+
+
 if __name__ == "__main__":
     if sys.argv[1] == "verify":
         verify(sys.argv[2])
+    elif sys.argv[1] == "sweep":
+        for d in sys.argv[2:]:
+            sweep(d)
     else:
         detect(sys.argv[2], sys.argv[3:])
